@@ -172,7 +172,7 @@ constexpr auto swap(pair<T1, T2>& lhs, pair<T1, T2>& rhs) noexcept(noexcept(lhs.
 template <typename T1, typename T2>
 [[nodiscard]] constexpr auto make_pair(T1&& t, T2&& u) -> pair<unwrap_ref_decay_t<T1>, unwrap_ref_decay_t<T2>>
 {
-    return {etl::forward<T1>(t), etl::forward<T2>(u)};
+    return pair<unwrap_ref_decay_t<T1>, unwrap_ref_decay_t<T2>>(etl::forward<T1>(t), etl::forward<T2>(u));
 }
 
 /// \brief Tests if both elements of lhs and rhs are equal, that is, compares
